@@ -128,3 +128,7 @@ def run(ctx, rep):
     # which is reported as a conventional 00:00:00 far from Dhuhr (R6.1 decides the guard)
     from . import c06 as _c06
     shared.include(ctx, rep, _c06.run, {'R6.1'}, why='a conventional time is reported only when its hour angle exists')
+    # Imsaak is the seventh entry: with no policy it carries no flag of its own (the builder's flag is the Fajr entry's flag)
+    from . import imsaak as _imsaak
+    shared.include(ctx, rep, lambda c_, r_: _imsaak.check(c_, r_, 'R5.4'), {'R5.4'},
+                   keys=lambda k: k in ('imsaak:flag-is-fajr-flag',), why='nothing is flagged extreme without a policy - Imsaak included')
